@@ -352,6 +352,13 @@ def token_obligations_for(check, Q, T):
     return nforms, ns
 
 
+def conv_contract(low):
+    """Contract of all conversion entry points (Convert, ConvertInPlace, ConvertStatically; proved in C02): component-wise
+    application of one uninterpreted function convert(x, from, to)."""
+    from .c02_members import summary_for
+    return summary_for(low)
+
+
 def conv_summaries(low):
     """Contract summary of the conversion entry points at the text level: Convert(x, from, to) is an uninterpreted
     function of (x, from, to) per component (its meaning is C01/C02's business)."""
@@ -379,7 +386,7 @@ def conv_summaries(low):
 def token_check(check, Q, low, f, canon, n, dimensional, with_unit, name):
     from ..symex import SymEx
     # make sure callees are lowered before building summaries
-    S = SymEx(low, summaries=conv_summaries(low))
+    S = SymEx(low, summary_for=conv_contract(low))
     st = State()
     val = S.symbolic_value(('rec', canon), 'q')
     b = S.newbox(st, val)
@@ -474,7 +481,7 @@ def token_check(check, Q, low, f, canon, n, dimensional, with_unit, name):
 
 
 def stream_check(check, Q, low, f, canon, name):
-    S = SymEx(low, summaries=conv_summaries(low))
+    S = SymEx(low, summary_for=conv_contract(low))
     st = State()
     val = S.symbolic_value(('rec', canon), 'q')
     b = S.newbox(st, val)
@@ -492,7 +499,7 @@ def stream_check(check, Q, low, f, canon, name):
     ob.backend = 'phqv symex (token lists)'
     if not pr:
         raise Unsupported('no Print() found for %s' % canon)
-    S2 = SymEx(low, summaries=conv_summaries(low))
+    S2 = SymEx(low, summary_for=conv_contract(low))
     st2 = State()
     val2 = S2.symbolic_value(('rec', canon), 'q')
     b2 = S2.newbox(st2, val2)
